@@ -239,6 +239,34 @@ pub fn run_mask_ops(l: &[i128]) -> Vec<i128> {
                 }
             }
         }
+        6 => {
+            // a draw call with a mask of another size is documented to do nothing, on tiled pixmaps too (w or h above 8191):
+            // the mask is 9 columns / rows short; fill_path, fill_rect with a transform, a thick and a hairline stroke
+            use tiny_skia::{PathBuilder, Rect, Stroke};
+            let (mw, mh) = if l[3] & 1 == 0 { (w.saturating_sub(9).max(1), h) } else { (w, h.saturating_sub(9).max(1)) };
+            let m = Mask::from_vec(vec![200u8; (mw * mh) as usize], IntSize::from_wh(mw, mh).unwrap()).unwrap();
+            let before: Vec<u8> = pm.data().to_vec();
+            let mut paint = Paint::default();
+            paint.set_color_rgba8(250, 10, 90, 255);
+            paint.anti_alias = l[3] & 2 != 0;
+            let (fw, fh) = (w as f32, h as f32);
+            let rects = [
+                Rect::from_ltrb(fw - 200.0, 1.0, fw - 1.0, (fh - 1.0).max(2.0)),
+                Rect::from_ltrb(1.0, fh - 200.0, (fw - 1.0).max(2.0), fh - 1.0),
+                Rect::from_ltrb(0.0, 0.0, fw.min(30.0), fh.min(30.0)),
+            ];
+            for r in rects.iter().flatten() {
+                let path = PathBuilder::from_rect(*r);
+                pm.fill_path(&path, &paint, FillRule::Winding, Transform::identity(), Some(&m));
+                pm.fill_rect(*r, &paint, Transform::from_translate(0.5, 0.0), Some(&m));
+                pm.stroke_path(&path, &paint, &Stroke { width: 3.0, ..Stroke::default() }, Transform::identity(), Some(&m));
+                pm.stroke_path(&path, &paint, &Stroke { width: 0.0, ..Stroke::default() }, Transform::identity(), Some(&m));
+            }
+            for i in 0..(w * h) as usize {
+                let same = pm.data()[4 * i..4 * i + 4] == before[4 * i..4 * i + 4];
+                judge(i, if same { 0.0 } else { 1.0 }, 0.0, 0.0);
+            }
+        }
         _ => return vec![-3],
     }
     vec![checked, bad, first[0], first[1], first[2], first[3]]
